@@ -41,7 +41,7 @@ func checkC12(c *Ctx) {
 		for _, b := range backends {
 			c.c07Batch(b)
 		}
-	}, func(o *coreObl) (string, bool) { return "R12.1", o.Rule == "R07.4" && strings.HasSuffix(o.Construct, ".Len") })
+	}, func(o *coreObl) (string, bool) { return "R12.1", isLenObligation(o) })
 	c.configWriters("R12.1", "HeapInUseSoftLimit", "SysMemSoftLimit", "CountSoftLimit", "EvictFraction", "EvictionStrategy", "EvictionNeeded")
 }
 
